@@ -239,15 +239,15 @@ theorem mxint_roundtrip (c : Nat) (hc : c < 256) : (decode .mxint c >>= encode .
   of_decide_eq_true (allBelow_spec mxintReencChk c hc)
 
 /- Full statement (NOT proved in general — listed in NOT_YET_PROVED):
-     theorem mxint_rne (f : Nat) (hf : f < 2 ^ 64) (hd : mxintDeviates f = false) :
+     theorem mxint_rne (f : Nat) (hf : f < 2 ^ 64) :
        mxintEnc f = match f64Val f with
          | .nan => .error .value | .inf s => .ok (if s then 0x80 else 0x7f) | .fin s m e => .ok (mxintCodeSpec s m e)
-   What is missing: a proof that `roundBits 11 52` is the identity on the float64-representable sums `64·f ± ½`.
+   What is missing: a proof that the modelled float64 product `f * 64` (`roundBits 11 52`) is exact below the overflow
+   threshold; the rest (`round()` = `rneDiv`, saturation) is `mxint_spec_is_nearest_even` plus case analysis.
    (A kernel enumeration over the 65 536 half-precision inputs was measured at about 30 CPU-minutes and left out.)
-   Proved instead: the statement on every representable value (`mxint_rne_partial` below, all 256 codes), that the
-   specification's rounding is the declarative nearest-even (`mxint_spec_is_nearest_even`), and that the full statement
-   is false on the two excluded inputs (`mxint_deviation_witness`).  Every half-precision input and the float64 ties
-   ±1 ulp are compared with an exact-rational oracle by the correspondence run. -/
+   Proved instead: the statement on every representable value (`mxint_rne_partial`, all 256 codes) and on the two inputs
+   on which the earlier add-0.5 implementation went wrong (`mxint_above_tie`).  Every half-precision input and the
+   float64 ties ±1 ulp are compared with an exact-rational oracle by the correspondence run. -/
 
 /-- `mxint_rne` restricted to the exactly representable inputs: for every code `c`, `mxint2bitstore` applied to the
     float `int8(c)·2⁻⁶` returns the nearest-even code of 64 times that value — which is `c`. -/
@@ -257,13 +257,13 @@ theorem mxint_rne_partial (c : Nat) (hc : c < 256) :
   of_decide_eq_true (allBelow_spec mxintRneChk c hc)
 
 
-/-- Witness of the known deviation (known_findings.d/C11.json, region `mxintDeviates`): for `64·|f| = ½ + 2⁻⁵³`
-    `f += 0.5` rounds to exactly 1.0, the tie rule then decrements it, and the code is 0 where nearest-even demands ±1. -/
-theorem mxint_deviation_witness :
-    mxintDeviates 0x3f80000000000001 = true ∧
-    mxintEnc 0x3f80000000000001 = .ok 0 ∧
+/-- The two inputs just above a tie, `64·|f| = ½ + 2⁻⁵³` (fixed finding `mxint-half-ulp-above-tie`: the earlier
+    `f += 0.5` rounded to 1.0 and was then taken for a tie): the encoder returns the nearest code ±1, as the
+    specification demands. -/
+theorem mxint_above_tie :
+    mxintEnc 0x3f80000000000001 = .ok 1 ∧
     (match f64Val 0x3f80000000000001 with | .fin s m e => mxintCodeSpec s m e | _ => 0) = 1 ∧
-    mxintEnc 0xbf80000000000001 = .ok 0 ∧
+    mxintEnc 0xbf80000000000001 = .ok 0xff ∧
     (match f64Val 0xbf80000000000001 with | .fin s m e => mxintCodeSpec s m e | _ => 0) = 0xff := by
   decide +kernel
 
